@@ -6,7 +6,10 @@ with its own regex readers; interpolation, the SLD sum and the Cromer-Mann sum
 are recomputed in plain Python.  The physical constants are written out here
 (CODATA 2006, the values documented in periodictable/constants.py).
 """
+import bisect
 import math
+import sys
+import types
 from fractions import Fraction
 
 from hypothesis import strategies as st
@@ -122,7 +125,16 @@ def exact_row(tab, spec, mode):
         return spec[1] % len(tab.Ek)
     if spec[0] == "exact1":
         return min(max(tab.first_f1 + spec[1], 0), len(tab.Ek) - 1)
+    if spec[0] == "negx":
+        return neg_row(tab, spec[1], spec[2])
     return None
+
+
+def neg_row(tab, j, d):
+    """Row of the j-th node whose tabulated f1 is <= 0, shifted by d rows (any row if the table has none)."""
+    n = len(tab.Ek)
+    i = tab.nonpos[j % len(tab.nonpos)] if tab.nonpos else max(tab.first_f1, j % n)
+    return min(max(i + d, 0), n - 1)
 
 
 def isnan(x):
@@ -151,6 +163,16 @@ def energy_spec():
         st.tuples(st.just("in"), st.floats(0.0, 1.0)).map(list),
         st.tuples(st.just("exact"), st.integers(0, 800)).map(list),
         st.tuples(st.just("exact1"), st.sampled_from([-1, 0, 0, 0, 1])).map(list),
+        neg_spec(),
+        neg_spec(),
+    )
+
+
+def neg_spec():
+    """Energies where the tabulated f1 is zero or negative, and their neighbours."""
+    return st.one_of(
+        st.tuples(st.just("negx"), st.integers(0, 60), st.sampled_from([-1, 0, 0, 0, 1])).map(list),
+        st.tuples(st.just("negm"), st.integers(0, 60), st.sampled_from([-1, 0, 0]), st.floats(0.0, 1.0)).map(list),
     )
 
 
@@ -165,6 +187,8 @@ def energy_spec_compound():
         st.tuples(st.just("node"), st.integers(70, 800), st.sampled_from(ULPS)).map(list),
         st.tuples(st.just("exact"), st.integers(60, 800)).map(list),
         st.tuples(st.just("exact1"), st.sampled_from([0, 0, 1])).map(list),
+        neg_spec(),
+        neg_spec(),
         energy_spec(),
     )
 
@@ -195,7 +219,10 @@ def to_energy(tab, spec):
         return 0.03 * 1000.0 ** spec[1]
     if kind == "abs":
         return float(spec[1])
-    if kind in ("exact", "exact1"):
+    if kind == "negm":
+        i = min(neg_row(tab, spec[1], spec[2]), n - 2)
+        return tab.Ek[i] + spec[3] * (tab.Ek[i + 1] - tab.Ek[i])
+    if kind in ("exact", "exact1", "negx"):
         g = grid(tab.symbol)
         if len(g) != n:
             raise Violation("c05:sftable:grid", "%s.xray.sftable has %d rows, %s.nff has %d" % (tab.symbol, len(g), tab.symbol.lower(), n),
@@ -212,7 +239,17 @@ def energy_classes(tab, E, spec):
         out.append("energy:near-edge")
     if tab.emin <= E < tab.Ek[tab.first_f1]:
         out.append("energy:f1-not-available")
+    if f1_nonpositive(tab, E):
+        out.append("energy:f1-nonpositive")
     return out
+
+
+def f1_nonpositive(tab, E):
+    """True if the tabulated f1 around E (keV) is zero or negative."""
+    if not tab.nonpos or E < tab.emin or E > tab.emax:
+        return False
+    j = bisect.bisect_right(tab.Ek, E) - 1
+    return any(0 <= i < len(tab.Ek) and tab.f1[i] is not None and tab.f1[i] <= 0 for i in (j, j + 1))
 
 
 def interesting(tab, E):
@@ -1245,6 +1282,143 @@ def check_routes(ctx, value):
 
 
 # ----------------------------------------------------------------------
+# the served tables equal the files, whatever public calls were made before
+def _atoms_in_use(table, symbols):
+    """(label, symbol, atom) for the elements and for every ion object created so far."""
+    for sym in symbols:
+        el = table.symbol(sym)
+        yield sym, sym, el
+        for c, ion in sorted(el.ion.ionset.items()):
+            yield "%s{%+d}" % (sym, c), sym, ion
+        for iso in el:
+            for c, ion in sorted(iso.ion.ionset.items()):
+                yield "%s[%d]{%+d}" % (sym, iso.isotope, c), sym, ion
+
+
+def table_diff(np, tab, served):
+    """None if the served (3, n) array is the table of the .nff file, else a description."""
+    if served is None:
+        return "sftable is None"
+    served = np.asarray(served)
+    n = len(tab.Ek)
+    if served.shape != (3, n):
+        return "shape %r, the file has %d rows" % (served.shape, n)
+    for i in range(n):
+        x, a, b = float(served[0, i]), float(served[1, i]), float(served[2, i])
+        if abs(x - tab.Ek[i]) > 4 * EPS * tab.Ek[i]:
+            return "row %d: energy %r, file %s eV" % (i, x, tab.ev_text[i])
+        want = tab.f1[i]
+        if (isnan(a) != (want is None)) or (want is not None and a != want):
+            return "row %d (%s eV): f1 is %r, file has %r" % (i, tab.ev_text[i], a, want if want is not None else "-9999 (not available)")
+        if b != tab.f2[i]:
+            return "row %d (%s eV): f2 is %r, file has %r" % (i, tab.ev_text[i], b, tab.f2[i])
+    return None
+
+
+def tables_changed(ctx, symbols=None):
+    """None, or (atom label, symbol, description) of the first served table (atom.xray.sftable of an
+    element with a file, or of an ion object created so far) that differs from the file."""
+    E = env()
+    for label, sym, atom in _atoms_in_use(E["table"], symbols or E["symbols"]):
+        ctx.count("table-unchanged:compared")
+        why = table_diff(E["np"], nff(sym), atom.xray.sftable)
+        if why is not None:
+            return label, sym, why
+    return None
+
+
+def check_tables_unchanged(ctx, after, symbols=None):
+    bad = tables_changed(ctx, symbols)
+    if bad is not None:
+        ctx.violation("c05:sftable:changed", "after %s: %s.xray.sftable no longer equals %s.nff: %s"
+                      % (after, bad[0], bad[1].lower(), bad[2]), {"kind": "tables", "after": after, "symbol": bad[1]})
+
+
+def with_table_check(name, fn):
+    def run(ctx, **kw):
+        fn(ctx, **kw)
+        check_tables_unchanged(ctx, "task " + name)
+    return run
+
+
+# ----------------------------------------------------------------------
+# history: elements are plotted, then everything is evaluated again
+class _Anything(types.ModuleType):
+    """Stand-in for pylab/matplotlib: every attribute is a function that accepts anything."""
+    def __getattr__(self, name):
+        if name.startswith("__"):
+            raise AttributeError(name)
+        return lambda *a, **k: None
+
+
+def plot_elements(case, symbols):
+    E = env()
+    names = ["pylab", "matplotlib", "matplotlib.pyplot", "matplotlib.pylab"]
+    saved = dict((nm, sys.modules.get(nm)) for nm in names)
+    for nm in names:
+        sys.modules[nm] = _Anything(nm)
+    try:
+        for sym in symbols:
+            el = E["table"].symbol(sym)
+            plot = E["xsf"].plot_xsf
+            lib_call(case, "plot_xsf", lambda: plot(el))
+    finally:
+        for nm in names:
+            if saved[nm] is None:
+                sys.modules.pop(nm, None)
+            else:
+                sys.modules[nm] = saved[nm]
+
+
+def check_plot(ctx, value):
+    """plot_xsf(el) for some elements (plotting stubbed out), then the table, the exact nodes, the
+    interpolation and the compound calculators of those elements must be what they were."""
+    symbols, especs, mode, density, counts, vec = value
+    E = env()
+    case = {"kind": "plot", "value": value}
+    ctx.case(("plot", tuple(symbols), mode, tuple(map(tuple, especs))), nontrivial=any(nff(sy).nonpos for sy in symbols),
+             sample={"plotted": symbols, "then": "tables, nodes, interpolation, compounds"},
+             cls=["plot", "plotted:%d" % len(symbols)] + ["plot:f1-has-nonpositive-rows" if any(nff(sy).nonpos for sy in symbols)
+                                                          else "plot:f1-all-positive"])
+    plot_elements(case, symbols)
+    try:
+        _after_plot(ctx, symbols, especs, mode, density, counts, vec)
+    except Violation as v:
+        # the sub-oracle's own case would not replay without the plot: report the history
+        raise Violation("c05:plot:" + v.bucket.split(":", 1)[1], "after plot_xsf(%s): %s" % (", ".join(symbols), v.message), case)
+    bad = tables_changed(ctx, symbols)
+    if bad is not None:
+        raise Violation("c05:plot:sftable-changed", "after plot_xsf(%s): %s.xray.sftable no longer equals %s.nff: %s"
+                        % (", ".join(symbols), bad[0], bad[1].lower(), bad[2]), case)
+
+
+def _after_plot(ctx, symbols, especs, mode, density, counts, vec):
+    E = env()
+    done = E.setdefault("plotted", set())
+    for sym in symbols:
+        tab = nff(sym)
+        spec = [sym, 0, 0]
+        if sym not in done:
+            done.add(sym)
+            rows = list(range(len(tab.Ek)))
+            for ch in chunks([["exact", i] for i in rows], 64):
+                check_factors(ctx, [spec, "E", ch, False])
+            for ch in chunks([["mid", i, 0.5] for i in rows[:-1]], 64):
+                check_factors(ctx, [spec, "E", ch, False])
+        neg = [["negx", j, d] for j in range(min(len(tab.nonpos), 12)) for d in (-1, 0, 1)]
+        neg += [["negm", j, d, 0.37] for j in range(min(len(tab.nonpos), 12)) for d in (-1, 0)]
+        for ch in chunks(neg, 32):
+            check_factors(ctx, [spec, mode, ch, False])
+        check_factors(ctx, [spec, mode, especs, False])
+        check_element_sld(ctx, [spec, mode, especs, False])
+    # a compound of the plotted elements, energies relative to each of them in turn
+    atoms = [["a", [sym, 0, 0], False, (None if c == 1 else str(c))] for sym, c in zip(symbols, counts)]
+    tree = {"g": [["i", None, atoms]], "s": [], "d": None}
+    for ref in range(len(symbols)):
+        check_compound(ctx, [tree, density, ref, especs[:3], mode, 2.0, [1.0, 20.0], 3.0, 1 if vec else 0])
+
+
+# ----------------------------------------------------------------------
 # f0
 Q_FIXED = [["abs", 0.0], ["small", 9], ["small", 3], ["abs", 0.1], ["abs", 1.0], ["abs", 5.0],
            ["abs", 4 * math.pi], ["abs", 20.0], ["abs", 50.0], ["lim", -10 ** 6], ["lim", -1], ["lim", 0],
@@ -1486,6 +1660,23 @@ def task_routes(ctx, n):
     ctx.search("routes", strat, lambda c, v: check_routes(c, v), n)
 
 
+def task_plot(ctx, n):
+    E = env()
+    with_dips = [sy for sy in E["symbols"] if nff(sy).nonpos]
+    syms = st.lists(st.one_of(st.sampled_from(with_dips), st.sampled_from(with_dips), st.sampled_from(E["symbols"])),
+                    min_size=1, max_size=3, unique=True)
+    strat = st.tuples(syms, st.lists(st.one_of(neg_spec(), neg_spec(), energy_spec_compound()), min_size=2, max_size=4),
+                      st.sampled_from(["E", "E", "W"]), st.floats(0.1, 20.0),
+                      st.lists(st.integers(1, 5), min_size=3, max_size=3), st.booleans()).map(list)
+    ctx.extra["tables_with_nonpositive_f1"] = len(with_dips)
+    ctx.search("plot", strat, lambda c, v: check_plot(c, v), n)
+
+
+def task_scans_and_plot(ctx, n_atom, n_plot):
+    task_scans(ctx, n_atom=n_atom, n_compound=0)
+    task_plot(ctx, n_plot)
+
+
 def task_f0(ctx, n, sweep=True):
     E = env()
     syms = E["f0_syms"]
@@ -1511,12 +1702,12 @@ def tasks(tier):
                 ("element-sld", task_element_sld, dict(n=2000)),
                 ("f0", task_f0, dict(n=1500)),
                 ("f0-generated", task_f0, dict(n=1500, sweep=False)),
-                ("scan-atoms", task_scans, dict(n_atom=600, n_compound=0)),
+                ("scan-atoms+plot", task_scans_and_plot, dict(n_atom=600, n_plot=120)),
                 ("scan-compounds", task_scans, dict(n_atom=0, n_compound=250)),
                 ("unusual", task_unusual, dict(n=400))]
         out += [("compounds-%d" % k, task_compounds, dict(n=334, depth=k % 3)) for k in range(3)]
         out.append(("routes", task_routes, dict(n=300)))
-        return out
+        return [(nm, with_table_check(nm, fn), kw) for nm, fn, kw in out]
     for k in range(4):
         out.append(("factors-%d" % k, task_factors, dict(n=40000)))
     out.append(("element-sld-0", task_element_sld, dict(n=30000)))
@@ -1530,7 +1721,9 @@ def tasks(tier):
     out.append(("routes-1", task_routes, dict(n=5000)))
     out.append(("unusual-0", task_unusual, dict(n=6000)))
     out.append(("unusual-1", task_unusual, dict(n=6000)))
-    return out
+    out.append(("plot-0", task_plot, dict(n=3000)))
+    out.append(("plot-1", task_plot, dict(n=3000)))
+    return [(nm, with_table_check(nm, fn), kw) for nm, fn, kw in out]
 
 
 def replay(ctx, case):
@@ -1545,6 +1738,10 @@ def replay(ctx, case):
         check_f0(ctx, case["value"])
     elif kind == "routes":
         check_routes(ctx, case["value"])
+    elif kind == "plot":
+        check_plot(ctx, case["value"])
+    elif kind == "tables":
+        check_tables_unchanged(ctx, "replay", symbols=[case["symbol"]] if case.get("symbol") else None)
     elif kind == "unusual":
         check_unusual(ctx, case["value"])
     elif kind == "scan-atom":
